@@ -2039,61 +2039,138 @@ func ruleRewriterDescends(scopeFiles func(string) bool, ruleID string, min int) 
 						}
 						return true
 					})
+					// the callback may leave the decision to a helper of the package: `x, descend := h(node)` with
+					// `if !descend { return x }; return self.DefaultRewrite(x)` — then the helper's type switch on its
+					// parameter is the switch, and a case prunes where it can return `false` for the flag
+					switchBodies := []struct {
+						list  []ast.Stmt
+						subj  types.Object
+						flagI int // >= 0: index of the "descend" result in the helper's returns
+					}{{fl.Body.List, node, -1}}
 					for _, st := range fl.Body.List {
-						ts, ok := st.(*ast.TypeSwitchStmt)
-						if !ok {
+						as, ok := st.(*ast.AssignStmt)
+						if !ok || len(as.Lhs) != 2 || len(as.Rhs) != 1 {
 							continue
 						}
-						ti := parseTypeSwitch(info, ts)
-						if identObj(info, ti.subject) != node {
+						hc, ok := ast.Unparen(as.Rhs[0]).(*ast.CallExpr)
+						if !ok || len(hc.Args) != 1 || identObj(info, hc.Args[0]) != node {
 							continue
 						}
-						for _, cs := range ti.cases {
-							var lbls []string
-							has := false
-							for _, t := range cs.types {
-								if t != nil {
-									lbls = append(lbls, typeLabel(t))
-									if hasNodeChildren(c, t, nodeIface) {
-										has = true
+						hf := core.Callee(info, hc)
+						flag := identObj(info, as.Lhs[1])
+						val := identObj(info, as.Lhs[0])
+						if hf == nil || !core.InModule(hf) || flag == nil || val == nil || !isBoolType(flag.Type()) {
+							continue
+						}
+						hd := c.Decl(hf.Origin())
+						if hd == nil || hd.Body == nil {
+							continue
+						}
+						// every return of the callback that does not descend stands under `!flag`, and returns the helper's value
+						shapeOK := true
+						ast.Inspect(fl.Body, func(x ast.Node) bool {
+							if inner, isLit := x.(*ast.FuncLit); isLit && inner != fl {
+								return false
+							}
+							r, ok := x.(*ast.ReturnStmt)
+							if !ok || len(r.Results) != 1 {
+								return true
+							}
+							if isDescent(r.Results[0]) || rewritten[identObj(info, r.Results[0])] {
+								return true
+							}
+							guarded := false
+							ast.Inspect(fl.Body, func(y ast.Node) bool {
+								if is, ok := y.(*ast.IfStmt); ok && is.Body.Pos() <= r.Pos() && r.End() <= is.Body.End() {
+									if u, ok := ast.Unparen(is.Cond).(*ast.UnaryExpr); ok && u.Op == token.NOT && identObj(info, u.X) == flag {
+										guarded = true
 									}
 								}
+								return true
+							})
+							if !guarded || identObj(info, r.Results[0]) != val {
+								shapeOK = false
 							}
-							if !has {
+							return true
+						})
+						hps := paramObjs(c.DeclPkg(hd).TypesInfo, hd)
+						if shapeOK && len(hps) == 1 && hps[0] != nil {
+							switchBodies = append(switchBodies, struct {
+								list  []ast.Stmt
+								subj  types.Object
+								flagI int
+							}{hd.Body.List, hps[0], 1})
+						}
+					}
+					for _, sb := range switchBodies {
+						for _, st := range sb.list {
+							ts, ok := st.(*ast.TypeSwitchStmt)
+							if !ok {
 								continue
 							}
-							key := c.FuncName(d) + "/case " + strings.Join(lbls, ",")
-							var bad *ast.ReturnStmt
-							nret := 0
-							for _, b := range cs.body {
-								ast.Inspect(b, func(x ast.Node) bool {
-									if _, isLit := x.(*ast.FuncLit); isLit {
-										return false
-									}
-									r, ok := x.(*ast.ReturnStmt)
-									if !ok || len(r.Results) == 0 {
-										return true
-									}
-									nret++
-									res := r.Results[0]
-									if isDescent(res) || rewritten[identObj(info, res)] {
-										return true
-									}
-									if bad == nil {
-										bad = r
-									}
-									return true
-								})
-							}
-							if nret == 0 {
+							ti := parseTypeSwitch(info, ts)
+							if identObj(info, ti.subject) != sb.subj {
 								continue
 							}
-							if bad == nil {
-								c.OK(ruleID, key, cs.cc.Pos(), "every return goes through DefaultRewrite")
-							} else if r, ok := auditedRewriterPrunes[key]; ok {
-								c.OK(ruleID, key, cs.cc.Pos(), "audited: "+r)
-							} else {
-								c.Bad(ruleID, key, bad.Pos(), "this case returns `"+types.ExprString(bad.Results[0])+"` without rewriting the node's children: the rewrite stops at this node and everything below it is left as it was")
+							for _, cs := range ti.cases {
+								var lbls []string
+								has := false
+								for _, t := range cs.types {
+									if t != nil {
+										lbls = append(lbls, typeLabel(t))
+										if hasNodeChildren(c, t, nodeIface) {
+											has = true
+										}
+									}
+								}
+								if !has {
+									continue
+								}
+								key := c.FuncName(d) + "/case " + strings.Join(lbls, ",")
+								var bad *ast.ReturnStmt
+								nret := 0
+								for _, b := range cs.body {
+									ast.Inspect(b, func(x ast.Node) bool {
+										if _, isLit := x.(*ast.FuncLit); isLit {
+											return false
+										}
+										r, ok := x.(*ast.ReturnStmt)
+										if !ok || len(r.Results) == 0 {
+											return true
+										}
+										nret++
+										res := r.Results[0]
+										if sb.flagI >= 0 {
+											// helper form: the case descends iff it returns `true` for the flag
+											if sb.flagI < len(r.Results) {
+												if tv, ok := info.Types[r.Results[sb.flagI]]; ok && tv.Value != nil && tv.Value.Kind() == constant.Bool && constant.BoolVal(tv.Value) {
+													return true
+												}
+											}
+											if bad == nil {
+												bad = r
+											}
+											return true
+										}
+										if isDescent(res) || rewritten[identObj(info, res)] {
+											return true
+										}
+										if bad == nil {
+											bad = r
+										}
+										return true
+									})
+								}
+								if nret == 0 {
+									continue
+								}
+								if bad == nil {
+									c.OK(ruleID, key, cs.cc.Pos(), "every return goes through DefaultRewrite")
+								} else if r, ok := auditedRewriterPrunes[key]; ok {
+									c.OK(ruleID, key, cs.cc.Pos(), "audited: "+r)
+								} else {
+									c.Bad(ruleID, key, bad.Pos(), "this case returns `"+types.ExprString(bad.Results[0])+"` without rewriting the node's children: the rewrite stops at this node and everything below it is left as it was")
+								}
 							}
 						}
 					}
@@ -3521,6 +3598,21 @@ func ruleNoRunTimeGlobals(c *core.Ctx) {
 				}
 			case *ast.CallExpr:
 				if se, ok := ast.Unparen(x.Fun).(*ast.SelectorExpr); ok {
+					// a stateful object of another module kept in a package-level variable and filled at run time
+					// (`var k = koanf.New(".")` … `k.Load(...)`, `k.Set(...)`): what one regeneration loaded is still there
+					// for the next (fix 5ed0454: sections removed from _package.yml survived in watch mode)
+					switch se.Sel.Name {
+					case "Load", "Set", "Put", "Add", "Merge", "MergeAt", "Reset", "Insert", "Append", "Push", "Register":
+						if v := global(se.X); v != nil && ast.Unparen(se.X) != nil {
+							if _, direct := ast.Unparen(se.X).(*ast.Ident); direct {
+								if nt := core.NamedOf(v.Type()); nt != nil && nt.Obj().Pkg() != nil && !strings.HasPrefix(nt.Obj().Pkg().Path(), core.Mod) && nt.Obj().Pkg().Path() != "sync" {
+									if callee := core.Callee(info, x); callee != nil && callee.Type().(*types.Signature).Recv() != nil {
+										report(v, x.Pos(), "filled ("+nt.Obj().Pkg().Name()+"."+nt.Obj().Name()+"."+se.Sel.Name+")")
+									}
+								}
+							}
+						}
+					}
 					switch se.Sel.Name {
 					case "Store", "LoadOrStore", "Delete", "Swap", "CompareAndSwap", "LoadAndDelete":
 						if v := global(se.X); v != nil {
@@ -10786,4 +10878,201 @@ func tagActions(c *core.Ctx, p *packages.Package, d *ast.FuncDecl) map[string][]
 	}
 	walk(d.Body.List)
 	return out
+}
+
+// ruleDefinitionSwitchesResolveAliases (AL1): a back-end function that switches over a dsl.TypeDefinition, treats some
+// kind of definition specially (record, enum, type parameter) and sends everything else to a `default` has to say what
+// an ALIAS is — `case *dsl.NamedType` — because an alias of a record (or of a fixed vector, …) is none of the special
+// kinds and would take the default with the alias's own, different, shape (fix cf2d86e: `Vec3: int*3`, `Vec3[]` got the
+// dtype syntax "np.int32, (3,)" pasted into npt.NDArray[...]: the generated package did not import).
+func ruleDefinitionSwitchesResolveAliases(c *core.Ctx) {
+	const rule = "AL1"
+	c.Rule(rule, "back ends: a type switch over a dsl.TypeDefinition that gives records a result of their own and has a default that computes a result also has `case *dsl.NamedType` (or the subject was resolved with GetUnderlyingType)", 1)
+	n := 0
+	for _, d := range c.AllDecls() {
+		p := c.DeclPkg(d)
+		if p == nil || d.Body == nil || c.IsTestFile(d.Pos()) || !strings.Contains(p.PkgPath, "/internal/") || strings.HasSuffix(p.PkgPath, "/internal/cmd") || strings.HasSuffix(p.PkgPath, "/internal/validation") {
+			continue
+		}
+		info := p.TypesInfo
+		k := 0
+		ast.Inspect(d.Body, func(nn ast.Node) bool {
+			ts, ok := nn.(*ast.TypeSwitchStmt)
+			if !ok {
+				return true
+			}
+			ti := parseTypeSwitch(info, ts)
+			st := info.TypeOf(ti.subject)
+			nt := core.NamedOf(st)
+			if nt == nil || nt.Obj().Name() != "TypeDefinition" || nt.Obj().Pkg() == nil || nt.Obj().Pkg().Path() != core.Mod+"/pkg/dsl" {
+				return true
+			}
+			if !ti.hasDefault {
+				return true
+			}
+			hasNamed, special := false, false
+			for _, cs := range ti.cases {
+				for _, t := range cs.types {
+					if t == nil {
+						continue
+					}
+					switch typeLabel(t) {
+					case "*NamedType":
+						hasNamed = true
+					case "*RecordDefinition":
+						// a result of its own for RECORDS: an alias of a record needs it too. (Switches that single out
+						// primitives / enums / type parameters only and name everything else — the C++ back end, where an
+						// alias is a type of its own with generated functions of its own — are not this pattern.)
+						special = true
+					}
+				}
+			}
+			if !special {
+				return true
+			}
+			// a default that only aborts says "cannot happen", not "everything else": outside this rule (P4 judges it)
+			computes := false
+			for _, s := range ti.defaultBody {
+				if r, ok := s.(*ast.ReturnStmt); ok && len(r.Results) > 0 {
+					computes = true
+				}
+			}
+			if !computes {
+				return true
+			}
+			n++
+			k++
+			key := fmt.Sprintf("%s/switch %s.(type)#%d", c.FuncName(d), types.ExprString(ti.subject), k)
+			// the subject was resolved: single definition from a call of GetUnderlyingType… on the way
+			resolved := false
+			if id, ok := ast.Unparen(ti.subject).(*ast.Ident); ok {
+				if r := singleDefRHS(info, d.Body, id); r != ast.Expr(id) && strings.Contains(types.ExprString(r), "GetUnderlying") {
+					resolved = true
+				}
+			}
+			if r, ok := auditedAliasDefaults[c.FuncName(d)]; ok && !hasNamed && !resolved {
+				c.OK(rule, key, ts.Pos(), "audited: "+r)
+				return true
+			}
+			c.Check(hasNamed || resolved, rule, key, ts.Pos(), "aliases have their own case (or were resolved before the switch)",
+				"the switch gives records a result of their own and everything else the default, and has no `case *dsl.NamedType`: an alias (of a record, of a fixed vector, …) takes the default and gets the result computed from the alias's own shape")
+			return true
+		})
+	}
+	if n == 0 {
+		c.Undecided(rule, "anchor/switches over TypeDefinition", 0, "no type switch over dsl.TypeDefinition with special cases and a computing default found in the back ends")
+	}
+}
+
+// auditedAliasDefaults: function -> why its default is right for an alias too
+var auditedAliasDefaults = map[string]string{}
+
+// ruleEveryPatternBranchEmitsTheCaseExpression (SX1): the value of a `!switch` is the value of the matching case's
+// expression. Wherever a back end dispatches on the KIND of pattern of a switch case (`switch p := c.Pattern.(type)`),
+// every branch that does not abort prints that case's expression — a branch that prints only the switch target (or
+// nothing) gives the computed field a different value in that language (fix 21f459b: C++ returned the target for
+// `!switch i32: {int: 42}`).
+func ruleEveryPatternBranchEmitsTheCaseExpression(c *core.Ctx) {
+	const rule = "SX1"
+	c.Rule(rule, "back ends: in every type switch over a dsl.Pattern, each clause that does not abort refers to the Expression of a switch case (directly, or through a closure / helper of the package it calls)", 6)
+	n := 0
+	for _, d := range c.AllDecls() {
+		p := c.DeclPkg(d)
+		if p == nil || d.Body == nil || c.IsTestFile(d.Pos()) || !strings.Contains(p.PkgPath, "/internal/") {
+			continue
+		}
+		info := p.TypesInfo
+		isCaseExpr := func(nd ast.Node) bool {
+			hit := false
+			ast.Inspect(nd, func(m ast.Node) bool {
+				if se, ok := m.(*ast.SelectorExpr); ok && se.Sel.Name == "Expression" {
+					if nt := core.NamedOf(info.TypeOf(se.X)); nt != nil && nt.Obj().Name() == "SwitchCase" {
+						hit = true
+					}
+				}
+				return !hit
+			})
+			return hit
+		}
+		var reaches func(list []ast.Stmt, depth int) bool
+		reaches = func(list []ast.Stmt, depth int) bool {
+			for _, s := range list {
+				if isCaseExpr(s) {
+					return true
+				}
+				found := false
+				ast.Inspect(s, func(m ast.Node) bool {
+					ce, ok := m.(*ast.CallExpr)
+					if !ok || found || depth > 1 {
+						return !found
+					}
+					if f := core.Callee(info, ce); f != nil && f.Pkg() == p.Types {
+						if fd := c.Decl(f.Origin()); fd != nil && fd.Body != nil && reaches(fd.Body.List, depth+1) {
+							found = true
+						}
+					} else if id, ok := ast.Unparen(ce.Fun).(*ast.Ident); ok && f == nil {
+						if fl, ok := ast.Unparen(singleDefRHS(info, d.Body, id)).(*ast.FuncLit); ok && reaches(fl.Body.List, depth+1) {
+							found = true
+						}
+					}
+					return !found
+				})
+				if found {
+					return true
+				}
+			}
+			return false
+		}
+		k := 0
+		ast.Inspect(d.Body, func(nn ast.Node) bool {
+			ts, ok := nn.(*ast.TypeSwitchStmt)
+			if !ok {
+				return true
+			}
+			ti := parseTypeSwitch(info, ts)
+			nt := core.NamedOf(info.TypeOf(ti.subject))
+			if nt == nil || nt.Obj().Name() != "Pattern" || nt.Obj().Pkg() == nil || nt.Obj().Pkg().Path() != core.Mod+"/pkg/dsl" {
+				return true
+			}
+			// only dispatches that print: some clause refers to a case expression
+			any := false
+			for _, cs := range ti.cases {
+				if reaches(cs.body, 0) {
+					any = true
+				}
+			}
+			if !any {
+				return true
+			}
+			for _, cs := range ti.cases {
+				if len(cs.body) == 0 {
+					continue
+				}
+				aborts := false
+				if es, ok := cs.body[len(cs.body)-1].(*ast.ExprStmt); ok {
+					if ce, ok := es.X.(*ast.CallExpr); ok && core.NoReturn(info, ce) {
+						aborts = true
+					}
+				}
+				if aborts {
+					continue
+				}
+				var lbls []string
+				for _, t := range cs.types {
+					if t != nil {
+						lbls = append(lbls, typeLabel(t))
+					}
+				}
+				n++
+				k++
+				key := fmt.Sprintf("%s/case %s#%d", c.FuncName(d), strings.Join(lbls, ","), k)
+				c.Check(reaches(cs.body, 0), rule, key, cs.cc.Pos(), "prints the case's expression",
+					"this branch of the dispatch on the pattern kind never refers to the case's Expression: for such a pattern the computed field evaluates to something else (the switch target, or nothing) in this language")
+			}
+			return true
+		})
+	}
+	if n == 0 {
+		c.Undecided(rule, "anchor/type switches over dsl.Pattern", 0, "none found in the back ends")
+	}
 }
